@@ -148,6 +148,7 @@ def convert(execution) -> dict:
     pending_call = None
     pending_applied = False
     pending_log = None
+    skip_invend = False
     log_idx = {d["pt"]: k for k, d in enumerate(instrs, 1) if d["kind"] == "LOG"}
     for e in execution.trace:
         n = e["ev"]
@@ -192,8 +193,13 @@ def convert(execution) -> dict:
         elif n == "GetStateFail":
             # fetching a further page of a checkpoint RESPONSE failed: the call was applied, the SDK treats it as failed
             last_api = next((x for x in reversed(out) if x["ev"] in ("Api", "InvStart")), None)
+            if last_api is not None and last_api["ev"] == "InvStart" and out and out[-1] is last_api:
+                # the initial history could not be loaded: the whole invocation is one "started and raised" step
+                out[-1] = ev("InvLoadFail")
+                skip_invend = True
+                continue
             if last_api is None or last_api["ev"] != "Api" or not last_api["ok"]:
-                raise Unsupported("page fetch of the initial history failed (outside Durable.tla)")
+                raise Unsupported("page fetch failed at an unexpected point")
             last_api["ok"], last_api["o"], last_api["fcls"] = False, "applied", "retriable"
         elif n == "FnEnter":
             out.append(ev("FnEnter", i=idx_of_path(e["path"]), att=e["attempt"]))
@@ -218,6 +224,11 @@ def convert(execution) -> dict:
                     out.append(pending_call)
                 pending_call = None
             o = e["outcome"]
+            if skip_invend:
+                skip_invend = False
+                if o != "RAISED":
+                    raise Unsupported(f"history load failed but the invocation ended {o}")
+                continue
             if o not in ("SUCCEEDED", "FAILED", "PENDING", "RAISED", "CRASHED"):
                 raise Unsupported(f"invocation outcome {o}")
             out.append(ev("InvEnd", o=o))
